@@ -76,3 +76,31 @@ pub open spec fn ext_tokens(e: Extensions) -> Seq<Tok> {
         ExtensionsVariantV1::Causal(c) => seq![Tok::U(e.version as nat), Tok::U(0x00_01), c.log_id.tok(), c.timestamp.tok(), Tok::HashSeq(hash_bytes(sorted_hashes(c.previous@)))],
     }
 }
+
+// ---- decoding: t is an encoding of e (the `previous` set may come in any order) ---------------------------------------------
+pub open spec fn ext_admissible(e: Extensions, t: Seq<Tok>) -> bool {
+    &&& t.len() == 5 && t[0] == Tok::U(e.version as nat)
+    &&& match e.variant {
+        ExtensionsVariantV1::Basic(b) => t[1] == Tok::U(0x00_00) && t[2] == b.log_id.tok() && t[3] == b.timestamp.tok() && t[4] == b.prune_flag.tok(),
+        ExtensionsVariantV1::Causal(c) => t[1] == Tok::U(0x00_01) && t[2] == c.log_id.tok() && t[3] == c.timestamp.tok() && c.previous.admissible(t[4]),
+    }
+}
+// equality of extension values (HashSet compared by its set of elements)
+pub open spec fn ext_eq(a: Extensions, b: Extensions) -> bool {
+    a.version == b.version && match (a.variant, b.variant) {
+        (ExtensionsVariantV1::Basic(x), ExtensionsVariantV1::Basic(y)) => x == y,
+        (ExtensionsVariantV1::Causal(x), ExtensionsVariantV1::Causal(y)) => x.log_id == y.log_id && x.timestamp == y.timestamp && x.previous@ == y.previous@,
+        _ => false,
+    }
+}
+pub proof fn lemma_ext_scalar_toks()
+    ensures
+        forall|a: LogId, b: LogId| #[trigger] a.tok() == #[trigger] b.tok() ==> a == b,
+        forall|a: u16, b: u16| #[trigger] a.tok() == #[trigger] b.tok() ==> a == b,
+        forall|a: Timestamp, b: Timestamp| #[trigger] a.tok() == #[trigger] b.tok() ==> a == b,
+        forall|a: PruneFlag, b: PruneFlag| #[trigger] a.tok() == #[trigger] b.tok() ==> a == b,
+{
+    assert forall|a: LogId, b: LogId| #[trigger] a.tok() == #[trigger] b.tok() implies a == b by { assert(a.0.0@ == b.0.0@); assert(a.0.0 =~= b.0.0); }
+}
+#[verifier::external_body]
+pub fn verif_opaque_string() -> String { unimplemented!() }
